@@ -66,6 +66,8 @@ def main():
                 bad = 1
         finally:
             sh(f"git -C {REPO} checkout -- .")
+    # the harness binaries were last built from a changed tree: rebuild them from the restored one
+    sh("./check setup", cwd=ROOT)
     for r in rows:
         print("selftest sensitivity: %-28s %-4s %s  %s" % r)
     return bad
